@@ -459,7 +459,25 @@ async fn pair(payload: &str, keys: Arc<Keys>, bounded: bool) -> String {
     let mut stream_b = ab_rx.map(Ok::<_, ()>);
 
     let both = async { tokio::join!(sess_a.run(&mut sink_a, &mut stream_a), sess_b.run(&mut sink_b, &mut stream_b)) };
-    let res = tokio::time::timeout(Duration::from_millis(ms), both).await;
+    // "timeout" = no message was handed to either sink for `ms` milliseconds (three consecutive
+    // probes without progress), not a fixed wall-clock budget: a loaded machine must not turn a
+    // slow session into a reported deadlock.
+    let res = {
+        tokio::pin!(both);
+        let mut last = usize::MAX;
+        let mut idle = 0;
+        loop {
+            tokio::select! {
+                biased;
+                r = &mut both => break Ok(r),
+                _ = tokio::time::sleep(Duration::from_millis(ms / 3 + 1)) => {
+                    let now = rec_a.lock().unwrap().len() + rec_b.lock().unwrap().len();
+                    if now == last { idle += 1; } else { idle = 0; last = now; }
+                    if idle >= 3 { break Err(()); }
+                }
+            }
+        }
+    };
 
     let status = match &res {
         Err(_) => "timeout".to_string(),
@@ -511,7 +529,27 @@ fn main() {
             match which.as_str() {
                 "c20" => c20(payload, keys).await,
                 "c19" => pair(payload, keys, false).await,
-                "c21" => pair(payload, keys, true).await,
+                "c21" => {
+                    // the deadlock depends on how tokio's select! orders its ready arms: repeat the
+                    // session (fresh stores every time) and report the first attempt that hangs
+                    let tries = num(field(payload, "tries").unwrap_or("1"));
+                    let mut last = String::new();
+                    let mut hung = None;
+                    for t in 0..tries {
+                        last = pair(payload, keys.clone(), true).await;
+                        if last.starts_with("timeout") {
+                            hung = Some(t + 1);
+                            break;
+                        }
+                        if !last.starts_with("done") {
+                            break;
+                        }
+                    }
+                    match hung {
+                        Some(t) => format!("{last} attempt={t}"),
+                        None => format!("{last} attempts={tries}"),
+                    }
+                }
                 _ => "unknown sub-command".to_string(),
             }
         })
